@@ -73,4 +73,52 @@ CHECKS = {
     text="All histories up to depth 6 (thorough 8) over {enter/exit Context, exit by exception, with-blocks, push/pop, draw, spawn}: stack depth, identity of the restored generator, every draw and spawn equal numpy's stream from the seed alone, exceptions propagate. Classic and JAX VI runs are bit-identical across three fresh interpreters (random PYTHONHASHSEED); all 18 (residual_map, kl_map, jit) configurations of the JAX driver agree with the baseline to 1e-10.",
     note='well-nested stack use; JAX minimisers fixed to the jit-compatible variants so that only map/jit choices vary.',
     ref='DESIGN.md section for C21'),
+ 'C01': dict(
+    engine='case-runner', level='exploration',
+    technique='exhaustive enumeration of operator expression trees (all trees up to a node bound over a 49-leaf library incl. harness-side dense rectangular leaves), each decided on the full real+imaginary unit basis in every advertised mode against a numpy matrix model with structural capability rule',
+    text='201,909 (thorough 1,058,704) trees over {+,-,@,scalar*,.adjoint,.inverse,Sandwich.make}: every advertised mode equals the reference matrix expression (A, A^H, A^-1, A^-H) within a propagated round-off bound; advertised capability contains the structural rule and every extra advertised mode is matrix-correct; domain/target identity. 50 simplifier/flip branches are recorded as hit. Three defects repaired.',
+    note='depth 3 only over reduced leaf libraries; inverses checked where the reference is well conditioned.',
+    ref='DESIGN.md section for C01'),
+ 'C03': dict(
+    engine='case-runner', level='exploration',
+    technique='exhaustive enumeration of expression trees up to a node bound over the complete point-wise table, arithmetic, linear leaves, multi-domain forms and energies; each tree built as operator, via Linearization/Field methods and as plain-array transliteration; Jacobians decided on the full unit basis against jax.jacfwd',
+    text='12,470 (thorough 174,750) (tree, dtype, point) cases: plain value = linearization value = reference; dense Jacobian (all real and imaginary unit vectors through jac.times) = jax.jacfwd of the transliteration; jac.adjoint_times = transpose; metric = sum J^T F J with closed-form Fisher F. Vacuity guard: every ptw_dict function verified (complex where holomorphic). Five defects repaired.',
+    note='two generic grid points per dtype; node-count bound with graded alphabets instead of a uniform depth; Fisher metrics of bare likelihoods are closed forms (their correctness is C11).',
+    ref='DESIGN.md section for C03'),
+ 'C04': dict(
+    engine='case-runner', level='exploration',
+    technique='exhaustive enumeration: generated multi-key trees x EVERY non-empty proper subset of keys as constants x dtype x point; specialised operator compared with the original evaluated at (constants U variables) on the full unit basis',
+    text='7,740 (thorough 101,316) cases: simplify_for_constant_input result has the right domain/target, value, dense Jacobian = variable-key columns, adjoint, metric = variable x variable block; EnergyAdapter(constants=...) value, gradient keys/values and metric. Two defects repaired.',
+    note='c_out of simplify_for_constant_input is always None in this tree (merge code unreachable, as the design predicted); SampledKLEnergy(constants) is C19.',
+    ref='DESIGN.md section for C04'),
+ 'C05': dict(
+    engine='case-runner', level='exploration',
+    technique='exhaustive enumeration of straight-line programs (DAGs with shared leaves and shared sub-trees, canonicalised by object graph) x the full input grid 3^pixels; optimised operator compared with an independent numpy transliteration incl. dense Jacobian',
+    text='19,022 (thorough 121,369) programs over {add, mul, linear@} and 5 leaves sharing chain prefixes; at every grid point the original, the optimised and again the original operator agree with the reference in value, linearization value and dense Jacobian; domain/target identity; CPU-time limit detects non-termination. Three defects repaired.',
+    note='2-pixel target space; point-wise functions only in leaves.',
+    ref='DESIGN.md section for C05'),
+ 'C14': dict(
+    engine='case-runner', level='exploration',
+    technique='exhaustive configuration product (HPD system x rhs x start x preconditioner x controller kind x limit x nreset) with a recording controller proxy and a dense reference; Krylov-optimality of the first iterates',
+    text='298,182 (thorough 1.67M) cases: every energy shown to the controller has value/gradient consistent with the position; CONVERGED only with the limit reached or the documented criterion true on the dense residual; no run beyond the limit; residual refresh every nreset steps; iterates are the Krylov minimisers; InversionEnabler in all four modes on every unit vector solves the system; QuadraticEnergy determined on a basis. One defect repaired, one recorded.',
+    note='true residual accepted within 1e4*eps*(|b|+|A||x|); sizes <= 21 (40 thorough).',
+    ref='DESIGN.md section for C14'),
+ 'C15': dict(
+    engine='case-runner', level='exploration',
+    technique='exhaustive product of stopping configurations x systems run on BOTH solvers (eager and jit-compiled), dense reference incl. a textbook CG locating the first non-positive curvature',
+    text='368 (thorough 912) static call structures x 44,064 inner system/config runs: info==0 only with a criterion met (or exact solution) at nit>=miniter, stop at first opportunity, nit<=maxiter, Krylov-optimal iterate, eager/static agreement on x and on the verdict, convergence exactly at maxiter, maxiter=0; non-PD: failure reported when asked, else E(x)<=E(x0) and a steepest-descent step on first-direction negative curvature. Four defects repaired.',
+    note='x compared at 1e-10 for kappa<=10, via energies for kappa=1e3; pytree (Vector) and flat layouts, n<=5 (8 thorough).',
+    ref='DESIGN.md section for C15'),
+ 'C16': dict(
+    engine='case-runner', level='exploration',
+    technique='exhaustive products: direct line searches (energies x start grid x directions x parameters), minimiser runs, and ALL BFGS histories of length 7 over a 3-point alphabet compared with the dense BFGS recursion after every step',
+    text='42,516 (thorough 843,299) cases: 81,378 successful line searches satisfy both strong-Wolfe inequalities computed from hand-written gradients; 74,898 accepted steps never increase the energy; status in {CONVERGED, ERROR}; L_BFGS and VL_BFGS directions equal the dense recursion and each other on 8,748 histories (wrap-around forced).',
+    note='smooth energies without NaN/overflow; positive definite metrics for the Newton variants as documented.',
+    ref='DESIGN.md section for C16'),
+ 'C17': dict(
+    engine='case-runner', level='exploration',
+    technique='exhaustive product objectives x start grid (incl. exact zero-curvature points) x maxiter x absdelta over four separate checks (eager, compiled, trust region, agreement) with numpy reference f,g,H',
+    text='4,440 (thorough 31,100) cases: E(result)<=E(start) for all three minimisers; with g.H.g<0 a Newton-CG iteration steps along -g and lowers E whenever a trial length of the halving schedule does; eager and compiled agree on x and status class. Two defects repaired (plus the CG fallback shared with C15).',
+    note='agreement demanded only where the Hessian is well conditioned at every iterate (exactly singular points are round-off ties).',
+    ref='DESIGN.md section for C17'),
 }
